@@ -1,16 +1,16 @@
 #!/usr/bin/env python3
 """tools/gen_meta.py — write seeded/<id>/meta.json and the DESIGN.md table from
-the READMEs, .work/seeded-verify2.txt (demo on a scratch worktree) and
-.work/mutants-results.txt (the check against the change applied to /repo)."""
+the READMEs, seeded/verify-results.txt (demo on a scratch worktree) and
+seeded/check-results.txt (the check against the change applied to /repo)."""
 import json, os, re, sys
 root = '/verif'
 demo = {}
-for l in open(root + '/.work/seeded-verify2.txt'):
+for l in open(root + '/seeded/verify-results.txt'):
     m = re.match(r'id=(\S+) (.*)', l.strip())
     if m:
         demo[m.group(1)] = dict(kv.split('=') for kv in m.group(2).split())
 res = {}
-for l in open(root + '/.work/mutants-results.txt'):
+for l in open(root + '/seeded/check-results.txt'):
     m = re.match(r'(\S+) patch=(\S+) (\S+)\s*(.*)', l.strip())
     if m:
         res[m.group(1)] = (m.group(2), m.group(3), m.group(4))
